@@ -364,3 +364,30 @@ Proof.
   intros H. apply run_cons in H. destruct H as [l1 [i1 [i2 [Hs [Hr ->]]]]].
   unfold step, step_v in Hs. inversion Hs; subst. exact Hr.
 Qed.
+
+(* ---------------------------------------------------------------------------------------------------- the regenerated
+   table of flatname calls (coq/generated/C05Sites.v, re-extracted from the source on every run) against the model *)
+Require Import Hdl21Gen.C05Sites.
+
+Definition site_func (s : site) : string * string :=
+  match s with
+  | SPortRef _ _ => ("portrefs", "create_source")
+  | SNoConn _ _ _ => ("portrefs", "replace_noconn")
+  | SFlatMember _ _ => ("flatten_bundles", "replace_bundle_inst")
+  | SArrayElem _ _ => ("arrays", "elaborate_module")
+  | SPairMember _ _ => ("inst_bundles", "elaborate_instance_bundle")
+  end.
+
+(* the function calls flatname, and every call of it passes `avoid=module.namespace` *)
+Definition table_avoids (f : string * string) : bool :=
+  let cs := filter (fun c => String.eqb (fst (fst c)) (fst f) && String.eqb (snd (fst c)) (snd f)) c05_flatname_calls in
+  negb (match cs with [] => true | _ => false end) && forallb (fun c => String.eqb (snd c) "module.namespace") cs.
+
+Lemma sites_table s : site_avoids Repaired s = table_avoids (site_func s).
+Proof. destruct s; vm_compute; reflexivity. Qed.
+
+Lemma sites_table_complete :
+  forallb (fun c => existsb (fun f => String.eqb (fst (fst c)) (fst f) && String.eqb (snd (fst c)) (snd f))
+                            [site_func (SPortRef "" ""); site_func (SNoConn None "" ""); site_func (SFlatMember "" "");
+                             site_func (SArrayElem "" 0); site_func (SPairMember "" "")]) c05_flatname_calls = true.
+Proof. vm_compute. reflexivity. Qed.
